@@ -357,3 +357,120 @@ TASKS = {
 def run_task(item):
     kind, spec = item
     return TASKS[kind](spec)
+
+
+# ------------------------------------------------------------------------------------------------
+# C02: all option vectors of one program
+
+
+def _canon_key(prog):
+    return hashlib.sha1(repr(ic10.canonical(prog)).encode()).hexdigest()
+
+
+def strip_all_comments(code: str) -> list[str]:
+    return [ic10.strip_comment(l).rstrip() for l in code.split("\n")]
+
+
+def pragma_source(src: str, vec: dict) -> str:
+    lines = []
+    for k, v in vec.items():
+        name = k.replace("_", "-") if (hash(k) & 1) else k
+        lines.append(f"# pytrapic: {'' if v else 'no-'}{name}")
+    return "\n".join(lines) + "\n" + src
+
+
+def task_vectors(spec: dict) -> dict:
+    """spec: name, sources, tier, vectors (list of dicts over SEMANTIC_OPTIONS), base (dict)"""
+    t0 = time.time()
+    out = dict(name=spec["name"], status="ok", features=spec.get("features", []), problems=[], groups=0,
+               compiled=0, rejected=0, equiv_runs=0, paths=0, effects_compared=0, spurious=0, inconclusive=0,
+               textual_checked=0, pragma_checked=0, stats=sym.Stats().as_dict())
+    b = bounds_for(spec.get("tier", "quick"))
+    src = spec["sources"]
+    try:
+        base_opts = dict(append_version=False)
+        base_opts.update(spec.get("base", {}))
+        cap0, p0, pr0 = compile_and_load(src, base_opts)
+        if pr0:
+            out["status"] = pr0[0]
+            out["detail"] = pr0[1]
+            return out
+        groups = {}
+        for vec in spec["vectors"]:
+            o = dict(append_version=False)
+            o.update(vec)
+            cap, prog, pr = compile_and_load(src, o)
+            if pr:
+                out["rejected"] += 1
+                if pr[0] == "load_error" or "registers" not in (pr[1] or ""):
+                    out["problems"].append(dict(kind=pr[0], vec=vec, detail=pr[1]))
+                continue
+            out["compiled"] += 1
+            groups.setdefault(_canon_key(prog), (vec, cap, prog))
+        out["groups"] = len(groups)
+        k0 = _canon_key(p0)
+        tot = sym.Stats()
+        for key, (vec, cap, prog) in groups.items():
+            if key == k0:
+                continue
+            res = with_alarm(spec.get("timeout", 90), check_equiv, IC10Side(p0, cap0.main_end), IC10Side(prog, cap.main_end), b)
+            out["equiv_runs"] += 1
+            out["paths"] += res.paths
+            out["effects_compared"] += res.effects_compared
+            out["spurious"] += res.spurious
+            out["inconclusive"] += res.inconclusive
+            tot.add(res.stats)
+            if res.unsupported:
+                out["problems"].append(dict(kind="unsupported", vec=vec, detail=res.unsupported))
+            for d in res.divergences[:1]:
+                out["problems"].append(dict(kind="divergence", vec=vec, detail=d.detail, env=d.env, left=d.left_trace[:20],
+                                            right=d.right_trace[:20], code_base=cap0.code, code_vec=cap.code))
+        out["stats"] = tot.as_dict()
+        # comment / version options: instruction text must not change
+        for tv in spec.get("textual", []):
+            for sv in spec.get("textual_on", [{}]):
+                o = dict(sv)
+                o.update(tv)
+                capt = comp.compile_capture(src, **o)
+                o2 = dict(sv)
+                o2.update(original_code_as_comment=False, generated_comments=False, append_version=False)
+                capb = comp.compile_capture(src, **o2)
+                out["textual_checked"] += 1
+                if capt.ok != capb.ok:
+                    out["problems"].append(dict(kind="textual_compile_mismatch", vec=o, detail=str(capt.error or capb.error)[:200]))
+                elif capt.ok and strip_all_comments(capt.code) != strip_all_comments(capb.code):
+                    # unused labels may survive when comments are attached; layout only -> compare canonical forms
+                    try:
+                        same = ic10.canonical(ic10.load(capt.code)) == ic10.canonical(ic10.load(capb.code))
+                        why = "instruction sequence changes with a comment/version option"
+                    except ic10.LoadError as e:
+                        same, why = False, f"unloadable with comment options: {e}"
+                    if not same:
+                        out["problems"].append(dict(kind="textual_difference", vec=o, code_base=capb.code, code_vec=capt.code, detail=why))
+        # pragma route: the same vector written as '# pytrapic:' lines
+        for vec in spec.get("pragma", []):
+            o = dict(append_version=False)
+            o.update(vec)
+            a = comp.compile_capture(src, **o)
+            bsrc = pragma_source(src, vec)
+            bb = comp.compile_capture(bsrc, append_version=False)
+            out["pragma_checked"] += 1
+            ca = a.code if a.ok else "ERROR"
+            cb = bb.code if bb.ok else "ERROR"
+            if (ca == "ERROR") != (cb == "ERROR") or (a.ok and bb.ok and ca != cb):
+                out["problems"].append(dict(kind="pragma_difference", vec=vec, code_base=ca, code_vec=cb,
+                                            detail="options given by '# pytrapic:' lines compile differently from the API"))
+    except Timeout:
+        out["status"] = "timeout"
+    except sym.Unsupported as e:
+        out["status"] = "unsupported"
+        out["detail"] = str(e)
+    except Exception as e:
+        out["status"] = "harness_error"
+        out["detail"] = f"{type(e).__name__}: {e}"
+        out["tb"] = traceback.format_exc()[-1500:]
+    out["wall_s"] = round(time.time() - t0, 3)
+    return out
+
+
+TASKS["vectors"] = task_vectors
